@@ -422,3 +422,112 @@ def agreement(chk, prog, config="default"):
         except (interp.Unmodelled, interp.InterpError) as e:
             chk.inst("prefix_header_layout-is-extend", "gc_ptr::prefix_header_layout[%s]" % config, False,
                      detail="could not be analysed: %s" % e)
+
+
+# ------------------------------------------------------------------------------------------------ value layouts
+def value_layouts(chk, prog, config="default"):
+    """Every `AllocMeta::layout` implementor, interpreted on uninterpreted terms: on every path that returns a
+    layout, the layout must depend on every type parameter of the value type it describes (a slice-with-header
+    layout that does not mention the element type cannot carry the element's alignment; one that does not
+    mention the header cannot carry its size). This is a necessary condition of "aligned for the value and
+    large enough", decided per path - a fast path for one length that forgets a component is reported. The
+    arithmetic of Layout::extend / pad_to_align itself stays delegated to std."""
+    import re as _re
+
+    def tyname(info):
+        s = info["f"].get("s", "")
+        m = _re.search(r"::<(.*)>$", s)
+        return m.group(1) if m else "?"
+
+    def l_new(ip, st, args, info):
+        return [(st, "ret", ("app", "Layout::new", (("sym", "ty:" + tyname(info)),)))]
+
+    def l_array(ip, st, args, info):
+        s2 = st.fork()
+        return [(st, "ret", adt("core::result::Result", 0, (("app", "Layout::array", (("sym", "ty:" + tyname(info)), args[0])),))),
+                (s2, "ret", adt("core::result::Result", 1, (("sym", "LayoutError"),)))]
+
+    def val(ip, st, a):
+        if isinstance(a, tuple) and a and a[0] == "ref":
+            try:
+                return ip.read(st, a[1], a[2])
+            except interp.InterpError:
+                return a
+        return a
+
+    def l_extend(ip, st, args, info):
+        a, b = val(ip, st, args[0]), val(ip, st, args[1])
+        s2 = st.fork()
+        return [(st, "ret", adt("core::result::Result", 0, (("adt", "(,)", 0, (("app", "extend", (a, b)), ("app", "extend_offset", (a, b)))),))),
+                (s2, "ret", adt("core::result::Result", 1, (("sym", "LayoutError"),)))]
+
+    def l_pad(ip, st, args, info):
+        return [(st, "ret", ("app", "pad_to_align", (val(ip, st, args[0]),)))]
+
+    def l_fsa(ip, st, args, info):
+        s2 = st.fork()
+        return [(st, "ret", adt("core::result::Result", 0, (("app", "from_size_align", tuple(args)),))),
+                (s2, "ret", adt("core::result::Result", 1, (("sym", "LayoutError"),)))]
+
+    def size_of(ip, st, args, info):
+        return [(st, "ret", ("sym", "ty:" + tyname(info) + ":size"))]
+
+    def align_of(ip, st, args, info):
+        return [(st, "ret", ("sym", "ty:" + tyname(info) + ":align"))]
+    prims = {"core::alloc::layout::Layout::new": l_new, "core::alloc::layout::Layout::array": l_array,
+             "core::alloc::layout::Layout::extend": l_extend, "core::alloc::layout::Layout::pad_to_align": l_pad,
+             "core::alloc::layout::Layout::from_size_align": l_fsa, "core::mem::size_of": size_of,
+             "core::mem::align_of": align_of}
+    n = 0
+    for im in prog.impls:
+        if im.get("trait") != "meta::AllocMeta":
+            continue
+        item = [i for i in im["items"] if i["name"] == "layout"]
+        if not item:
+            continue
+        fn = norm(item[0]["path"])
+        keys = [k for k in prog.seed_n.get(fn, []) if prog.bodies[k]["def"] == item[0]["path"]] or prog.seed_n.get(fn, [])
+        if not chk.anchor(item[0]["path"], bool(keys), "(config %s)" % config):
+            continue
+        vty = prog.ty(im["trait_args"][1]["ty"])
+        params = sorted(set(_re.findall(r"\b([A-Z][A-Za-z0-9]*)\b", vty["s"])) & {g["name"] for g in im["generics"] if g["kind"] == "type"})
+        def delegated(ip_, st, args, info):
+            # a generic call resolved only at instantiation (e.g. `P::layout` of a wrapped implementor): keep
+            # the callee as written, with its type arguments, as an uninterpreted term
+            return [(st, "ret", ("app", info.get("f", {}).get("s") or info.get("declared") or info["def"], tuple(args)))]
+        ip = Interp(prog, prims=dict(prims), opaque_call=delegated, strict=True)
+        ip.lenient_std = True
+        n += 1
+        try:
+            outs = ip.run(keys[0], [("sym", "type_meta"), ("sym", "ptr_meta")], State())
+        except (interp.Unmodelled, interp.InterpError) as e:
+            chk.inst("value-layout-depends-on-its-type", "%s[%s]" % (im["self_s"], config), False,
+                     detail="AllocMeta::layout of %s could not be analysed: %s" % (im["self_s"], e))
+            continue
+        probs = []
+        somes = 0
+        for o in outs:
+            if o.kind != "return":
+                continue
+            v = o.value
+            if not (v[0] == "adt" and v[1] == "core::option::Option"):
+                # delegated to another implementor (generic P::layout): the term names the callee with its type
+                txt = _fmt(v, 0) if isinstance(v, tuple) else str(v)
+            elif v[2] == 0:
+                continue
+            else:
+                txt = _fmt(v[3][0], 0)
+            somes += 1
+            full = repr(v)
+            missing = [p for p in params if not _re.search(r"\b%s\b" % _re.escape(p), full)]
+            if missing:
+                cons = "; ".join("%s %s %s" % (_fmt(a, 0), "".join(sorted(r)), _fmt(b, 0)) for (a, b), r in o.st.cons.items())
+                probs.append("a path%s returns the layout `%s`, which does not depend on type parameter(s) %s of the value type "
+                             "`%s`: for a %s with larger alignment or size the block is too weakly aligned / too small" % (
+                                 (" (taken when %s)" % cons) if cons else "", txt[:160], missing, vty["s"], "/".join(missing)))
+        if not somes:
+            probs.append("no path returns a layout")
+        chk.inst("value-layout-depends-on-its-type", "%s[%s]" % (im["self_s"], config), not probs,
+                 detail="; ".join(sorted(set(probs))[:2]), loc="%s:%s" % (im["span"]["f"], im["span"]["l"]),
+                 sample={"implementor": im["self_s"], "value_type": vty["s"], "parameters": params, "paths": somes})
+    chk.floor("AllocMeta-impls[%s]" % config, n, 3)
